@@ -32,6 +32,10 @@ man = {
     "engines": [
         {"name": "rapidcheck-bytes", "path": "harness/common/harness.h", "serves_properties": [c["property_id"] for c in checks],
          "kind_free_text": "rapidcheck generates and shrinks a byte string; a structure-aware decoder (harness/common/bytesource.h) turns it into a case; the same run_case serves the enumerators, the replay tier and libFuzzer"},
+        {"name": "enumerators", "path": "harness/cXX_*.cpp (enumerate())", "serves_properties": ["C02", "C06", "C09", "C13", "C14", "C16", "C17", "C19"],
+         "kind_free_text": "deterministic bounded-exhaustive generators that emit the same byte-encoded cases for the finite axes (generator pairs, rotation kernels, statement shapes, unsupported-argument window, (operation,k) fault points, nx window, schedules with a bounded number of preemptions); sharded with VERIF_ENUM_SHARD"},
+        {"name": "libfuzzer", "path": "harness/common/harness.h (-DHARNESS_FUZZ)", "serves_properties": ["C08", "C15"],
+         "kind_free_text": "coverage-guided libFuzzer (clang -fsanitize=fuzzer,address,undefined, fork mode) over the same run_case with the oracle inside the target; thorough tier only"},
         {"name": "driver", "path": "check", "serves_properties": [c["property_id"] for c in checks],
          "kind_free_text": "python driver: content-hashed ASan/UBSan/TSan builds from /repo working tree, sharding, crash triage with ddmin, 3x replay confirmation, known findings, evidence"},
     ],
